@@ -103,9 +103,19 @@ pub fn c_eq_reflexive(a: u64) -> bool {
     && rec_hash(&VALUE_UNDEFINED) == rec_hash(&VALUE_UNDEFINED)
 }
 
+/// A-float (used as an axiom by the Verus ops unit for op_buffered_channel): an f64 with no fractional part that is not below
+/// 1.0 casts to a usize >= 1 (NaN and the infinities have a non-zero `fract()` in the sense of `!= 0.0`)
+pub fn c_f64_cast_positive(bits: u64) -> bool {
+  let c = f64::from_bits(bits);
+  if !(c.fract() != 0.0) && !(c < 1.0) { (c as usize) >= 1 } else { true }
+}
+
 #[cfg(kani)]
 mod proofs {
   use super::*;
+
+  #[kani::proof]
+  fn o16_f64_cast_positive() { assert!(c_f64_cast_positive(kani::any())); }
 
   #[kani::proof]
   fn o14_1_num_roundtrip() { assert!(c_num_roundtrip(any_num_bits())); }
